@@ -1,5 +1,6 @@
 import Resolvo.CacheProofs
 import Resolvo.Oracles
+import Resolvo.MDet.CheckedProofs
 /-!
 # C07 — when the preferred candidates are mutually compatible, exactly they are selected
 
@@ -59,5 +60,53 @@ theorem firstChoice_ranked (U : Universe) (vs c : Nat)
 /-- union members are tried in their listed order: the candidate list is the concatenation -/
 theorem union_order (U : Universe) (u : Nat) :
     reqSorted U (.union u) = (U.unionOf u).flatMap (sortedCands U) := rfl
+
+/-! ## The property itself
+
+`preferred_exact_accepted`: for every universe and problem without soft requirements whose first choices are
+mutually compatible (`preferredConsistent U P = some pref`), **every** solver history that the decision-guarded
+abstract system accepts (`Abs.runOptD`: provenance of clauses, unit propagation with reasons, RUP-checked learnt
+clauses, and decisions that pick the first undecided candidate — in `SolverCache` order — of an unsatisfied
+requirement of a selected solvable) and that ends in a valid solution ends in exactly `pref`. The real solver's
+history is submitted to `runOptD` on every generated case (tag `mdet-decide-guard`), and so is the model's
+(`solveChecked`), for which the statement holds with no further hypothesis: `preferred_exact_checked`. -/
+
+theorem preferred_exact_accepted (U : Universe) (P : Problem) (hsoft : P.soft = []) (pref : List Nat)
+    (hpc : preferredConsistent U P = some pref) (evs : List Abs.Event) (st : Abs.St)
+    (hrun : Abs.runOptD U P evs = some st) (sol : List Nat) (hsol : sol = st.trueSolvables)
+    (hvalid : Valid U P sol []) : ∀ s, s ∈ sol ↔ s ∈ pref :=
+  Abs.preferred_exact U P hsoft pref hpc evs st hrun sol hsol hvalid
+
+theorem preferred_exact_checked (U : Universe) (P : Problem) (fuel : Nat) (s : MDet.S) (sol pref : List Nat)
+    (hsoft : P.soft = []) (hpc : preferredConsistent U P = some pref)
+    (h : (MDet.solveChecked U P fuel s).1 = .ok sol) : ∀ x, x ∈ sol ↔ x ∈ pref :=
+  MDet.solveChecked_preferred U P fuel s sol pref hsoft hpc h
+
+/-- no solvable outside the preferred selection is ever true on the trail of an accepted history — also in the
+    middle of the search (the solver never even *tries* anything else when the first choices are compatible) -/
+theorem never_tries_anything_else (U : Universe) (P : Problem) (hsoft : P.soft = []) (pref : List Nat)
+    (hpc : preferredConsistent U P = some pref) (evs : List Abs.Event) (st : Abs.St)
+    (hrun : Abs.runOptD U P evs = some st) (e : Abs.Entry) (he : e ∈ st.trail) (hv : e.val = true)
+    (s : Nat) (hs : st.solvOf e.var = some s) : s ∈ pref :=
+  Abs.accepted_entry_in_pref U P hsoft pref (Abs.prefHyp_of_consistent U P pref hpc).1 evs st hrun e he hv s hs
+
+/-! Non-vacuity: package 1 = {10 (rank 0), 11 (rank 1)}, package 2 = {20}; root requires vs 1 (any of package 1);
+    10 requires vs 2 (any of package 2). The preferred closure is [10, 20] and the history below is accepted. -/
+def exU : Universe :=
+  { pkgs := [(1, { cands := [10, 11] }), (2, { cands := [20] })],
+    solvs := [(10, ⟨1, 0, .known [.single 2] []⟩), (11, ⟨1, 1, .known [] []⟩), (20, ⟨2, 0, .known [] []⟩)],
+    vsets := [(1, ⟨1, [10, 11]⟩), (2, ⟨2, [20]⟩)] }
+def exP : Problem := { reqs := [.single 1] }
+def exHistory : List Abs.Event :=
+  [.clause 0 .root [], .assign 0 true 1 0, .var 1 (.solvable 10), .var 2 (.solvable 11),
+   .clause 1 (.requires 0 (.single 1)) [[1, 2]], .assign 1 true 2 1,
+   .var 3 (.solvable 20), .clause 2 (.requires 1 (.single 2)) [[3]], .assign 3 true 2 2]
+
+example : preferredConsistent exU exP = some [10, 20] := by decide
+example : (Abs.runOptD exU exP exHistory).map (·.trueSolvables) = some [10, 20] := by decide
+-- and the guard is not vacuous: deciding the second-ranked candidate first is rejected
+example : Abs.runOptD exU exP
+    [.clause 0 .root [], .assign 0 true 1 0, .var 1 (.solvable 10), .var 2 (.solvable 11),
+     .clause 1 (.requires 0 (.single 1)) [[1, 2]], .assign 2 true 2 1] = none := by decide
 
 end Resolvo.C07
